@@ -23,8 +23,13 @@ UNKNOWN = "pseudo.UnknownException"
 EXTERNAL_RAISES = {
     "builtins.int": ["builtins.ValueError"],
     "builtins.float": ["builtins.ValueError"],
+    # URLError/OSError for transport failures, ValueError for an unknown URL
+    # type or a malformed URL, http.client.InvalidURL (an HTTPException, not
+    # an OSError) for an http URL with a blank or control character or a
+    # non-numeric port -- raised before any connection is attempted
     "urllib.request.urlopen": ["urllib.error.URLError", "builtins.OSError",
-                               "builtins.ValueError"],
+                               "builtins.ValueError",
+                               "http.client.InvalidURL"],
     "urllib.request.urljoin": ["builtins.ValueError"],
     "urllib.parse.urljoin": ["builtins.ValueError"],
     "urllib.parse.urldefrag": ["builtins.ValueError"],
@@ -40,6 +45,8 @@ EXTERNAL_BASES = {
     "urllib.error.URLError": ["builtins.OSError"],
     "urllib.request.URLError": ["builtins.OSError"],
     "locale.Error": ["builtins.Exception"],
+    "http.client.InvalidURL": ["http.client.HTTPException"],
+    "http.client.HTTPException": ["builtins.Exception"],
     "xml.sax.SAXException": ["builtins.Exception"],
     PSEUDO_OWN: ["builtins.Exception"],
     UNKNOWN: ["builtins.Exception"],
@@ -63,7 +70,10 @@ NON_DATATYPE_SLOTS = {
     "factory": "handler-class partial built in FileHandlerFactory",
     "get_data": "PEP 302 loader; OSError attributed explicitly",
 }
-SLOT_EXTRA = {"get_data": ["builtins.OSError"]}
+SLOT_EXTRA = {"get_data": ["builtins.OSError"],
+              # bytes.decode(<codec>): the bytes of a resource need not be
+              # valid in that codec
+              "decode": ["builtins.UnicodeDecodeError"]}
 
 
 class ExcFlow:
@@ -347,6 +357,14 @@ class ExcFlow:
                         continue
                     out[(cls, self._loc(call) + " " + c.name, ())] = {
                         "via": None, "amb": c.ambiguous, "external": c.name}
+            elif c.kind == "builtin-method":
+                # methods of built-in objects: only the ones listed raise
+                # something the analysis attributes
+                for cls in SLOT_EXTRA.get(c.name.rsplit(".", 1)[-1], ()) \
+                        if c.name.rsplit(".", 1)[-1] == "decode" else ():
+                    out[(cls, self._loc(call) + " ." + c.name.rsplit(
+                        ".", 1)[-1], ())] = {"via": None, "amb": False,
+                                             "external": c.name}
             elif c.kind == "slot":
                 if c.name not in DATATYPE_SLOTS:
                     for cls in SLOT_EXTRA.get(c.name, ()):
